@@ -42,7 +42,7 @@ def drive_a(rec, cases, part, nparts, quick, tag):
         ns = [rng.choice(N_SMALL)]
         if not quick:
             ns.append(rng.choice(N_SMALL))
-        if idx % (97 if quick else 23) == 0:
+        if idx % (29 if quick else 7) == 0:
             ns.append(rng.choice(N_BIG))
         for n in ns:
             for mk in (kinds if n <= 64 else [rng.choice(kinds)]):
